@@ -165,7 +165,9 @@ impl Tap for Recorder {
             if let Some(p) = plan {
                 let op_match = p.op == opn;
                 let kind_match = p.kind == "any" || p.kind == kind;
-                if op_match && kind_match {
+                // a short write is shorter than the write: a "short" write of everything is a success
+                let short_ok = p.how != "short" || ev.len > p.short;
+                if op_match && kind_match && short_ok {
                     let n = self.fault_count.fetch_add(1, Ordering::SeqCst) + 1;
                     if n == p.nth {
                         verdict = match p.how.as_str() {
